@@ -1120,6 +1120,39 @@ func C16Handshake(r *eng.Run) {
 			}
 		}
 	}
+	// 1b/2b. A hiccup instead of a cut: at offset k one read fails with an
+	// error that calls itself temporary, then the stream goes on. The
+	// handshake may fail - or, if the implementation reads on, it must end
+	// exactly as the undisturbed one did.
+	hiccup := func(who string, k int, o, undisturbed *hsOutcome) {
+		if o.Err != nil {
+			return
+		}
+		if undisturbed.Err != nil || o.Protocol != undisturbed.Protocol || !sameStrings(extStrings(o.Exts), extStrings(undisturbed.Exts)) || !bytes.Equal(o.Head, undisturbed.Head) {
+			r.Failf("handshake_differs_after_temporary_error", "%s: one read failed with a temporary error at offset %d and the stream went on: the handshake reports %s (%d bytes written), undisturbed it is %s (%d bytes written)", who, k, o.summary(), len(o.Head), undisturbed.summary(), len(undisturbed.Head))
+		}
+	}
+	if !httpKind {
+		for k := 0; k < len(t.Request); k++ {
+			r.T.Rewind()
+			r.Res.FaultPoints++
+			p := pipeFor(r, t.Request, seg)
+			p.CutAt, p.CutKind, p.CutResume, p.TempErr = k, CutErr, true, true
+			hiccup(fmt.Sprintf("Upgrader kind %d", s.Kind), k, runServer(r, s, p), t.Server)
+			r.Fault("handshake_read_hiccup")
+		}
+	}
+	if t.Server.ok() {
+		for k := 0; k < len(t.Server.Head); k++ {
+			r.T.Rewind()
+			r.Res.FaultPoints++
+			rand.Seed(rseed)
+			p := pipeFor(r, t.Server.Written, seg)
+			p.CutAt, p.CutKind, p.CutResume, p.TempErr = k, CutErr, true, true
+			hiccup("Dialer", k, runClient(r, c, p), t.Client)
+			r.Fault("handshake_read_hiccup")
+		}
+	}
 	// 2. The response head is cut at every offset.
 	head := t.Server.Head
 	if t.Server.ok() {
